@@ -446,6 +446,59 @@ def upstreamResponseHeaders (upLines : List (Str × Str)) : Hdr := transportResp
 def relayResponse (closeWhenIdle : Bool) (upStatus : Nat) (upLines : List (Str × Str)) (upBody : Str) : Resp :=
   { status := upStatus, headers := relayHeaders (preHeaders closeWhenIdle) (upstreamResponseHeaders upLines), body := upBody }
 
+/-! ## time: when the upstream answers, and the deadlines on the gateway's side
+
+A forwarded request is sent with `EndpointInfo.ProxyTransport`: the `http.Transport` literal of `newTransport`
+(pkg/clusters/endpoint.go) handed to `utilnet.SetTransportDefaults`, wrapped by `rest.HTTPWrappersForConfig` (credentials, user
+agent: no time-out) and called DIRECTLY by the reverse proxy (`transport.RoundTrip`, no `http.Client`, so `rest.Config.Timeout`
+— 5 s in `newRESTConfig`, meant for the health-check clientset — never applies to a forwarded request). Which time-outs the
+literal sets is regenerated (`Gen.C04.transportFields`, `transportDurationsMs`). The chain has no time-out filter
+(`WithTimeoutForNonLongRunningRequests` is commented out in proxy.go: "let upstream cluster handle it"; `Gen.C04.proxyChainNames`).
+What remains bounds only the CONNECTION, not the answer: dial 5 s (`restDialerMs`; 30 s in the fallback dialer), TLS handshake
+10 s, idle kept-alive connections 90 s (net/http's default through `SetTransportDefaults`). -/
+
+/-- when the upstream writes, in milliseconds: after it has read the request, before the status line and header; between
+    header and body; between consecutive pieces of the body -/
+structure Timing where
+  beforeStatus : Nat
+  beforeBody : Nat
+  gaps : List Nat
+deriving Repr, DecidableEq
+
+/-- the deadlines of the gateway's side for the ANSWER of a forwarded request. `http.Transport.ResponseHeaderTimeout` (from the
+    request written to the response header read) is the only one net/http's transport has; `none` = the field is not set or 0 -/
+structure Deadlines where
+  responseHeader : Option Nat
+deriving Repr, DecidableEq
+
+def durationOf (name : String) : List (String × Nat) → Option Nat
+  | [] => none
+  | (k, d) :: rest => if k = name then (if d = 0 then none else some d) else durationOf name rest
+
+/-- the deadlines of the code as it is: read off the regenerated transport literal -/
+def codeDeadlines : Deadlines := ⟨durationOf "ResponseHeaderTimeout" Gen.C04.transportDurationsMs⟩
+
+inductive Relay
+  | relayed (r : Resp)     -- status, headers and the whole body of the upstream's answer, as `relayResponse` says
+  | gatewayError           -- the transport gave up before the header: the gateway's own 502 `Status` (proxyErrorResponder),
+                           -- NOTHING of the upstream's answer reaches the client
+deriving Repr, DecidableEq
+
+/-- `ReverseProxy.ServeHTTP` with time: `transport.RoundTrip` returns an error iff a response-header deadline exists and the
+    upstream's header is not there in time; delays after the header have no deadline in net/http's transport -/
+def relayTimed (dl : Deadlines) (t : Timing) (closeWhenIdle : Bool) (upStatus : Nat) (upLines : List (Str × Str)) (upBody : Str) : Relay :=
+  match dl.responseHeader with
+  | some d => if d ≤ t.beforeStatus then .gatewayError else .relayed (relayResponse closeWhenIdle upStatus upLines upBody)
+  | none => .relayed (relayResponse closeWhenIdle upStatus upLines upBody)
+
+/-- the fields of `http.Transport` that put a deadline on a response (Go 1.23, net/http/transport.go: `ResponseHeaderTimeout`;
+    `ExpectContinueTimeout` only decides when the body is sent without a `100 Continue`, it ends nothing) -/
+def responseDeadlineFields : List String := ["ResponseHeaderTimeout"]
+
+/-- the filters that put a deadline on a request (k8s.io/apiserver and the gateway's copy) -/
+def timeoutFilters : List String := ["WithTimeoutForNonLongRunningRequests", "?WithTimeoutForNonLongRunningRequests", "WithTimeout", "?WithTimeout",
+  "WithRequestDeadline", "?WithRequestDeadline"]
+
 /-! ## gateway-terminated answers -/
 /-- the fields of an apimachinery `StatusError` that decide the answer -/
 structure StatusErr where
